@@ -139,3 +139,10 @@ func (it *Iterator[T]) NextTo(f func(index int, value T) bool) bool {
 	}
 	return false
 }
+
+// Relink moves the head's successor to o's head — in the wrong order: the field is cleared first and read back afterwards
+// (R35: a value transfer that reads the constant it has just written).
+func (b *Box[T]) Relink(o *Box[T]) {
+	b.first.next = nil
+	o.first.next = b.first.next
+}
